@@ -655,10 +655,10 @@ attrsLoop:
 						var appended bool
 						if htmlAttr.Key == "rel" && (addNoFollow || addNoReferrer) {
 
-							if addNoFollow && !strings.Contains(htmlAttr.Val, "nofollow") {
+							if addNoFollow && !hasRelToken(htmlAttr.Val, "nofollow") {
 								htmlAttr.Val += " nofollow"
 							}
-							if addNoReferrer && !strings.Contains(htmlAttr.Val, "noreferrer") {
+							if addNoReferrer && !hasRelToken(htmlAttr.Val, "noreferrer") {
 								htmlAttr.Val += " noreferrer"
 							}
 							noFollowFound = addNoFollow
@@ -732,7 +732,7 @@ attrsLoop:
 						for _, htmlAttr := range cleanAttrs {
 							var appended bool
 							if htmlAttr.Key == "rel" {
-								if strings.Contains(htmlAttr.Val, "noopener") {
+								if hasRelToken(htmlAttr.Val, "noopener") {
 									noOpenerAdded = true
 									tmpAttrs = append(tmpAttrs, htmlAttr)
 								} else {
@@ -1007,6 +1007,35 @@ func linkable(elementName string) bool {
 	default:
 		return false
 	}
+}
+
+// hasRelToken returns true if the rel attribute value, read the way a browser
+// reads it (tokens separated by ASCII whitespace, compared ASCII
+// case-insensitively), contains token. token must be lower case.
+func hasRelToken(rel string, token string) bool {
+	isSpace := func(r rune) bool {
+		return r == ' ' || r == '\t' || r == '\n' || r == '\f' || r == '\r'
+	}
+	for _, t := range strings.FieldsFunc(rel, isSpace) {
+		if len(t) != len(token) {
+			continue
+		}
+		match := true
+		for i := 0; i < len(t); i++ {
+			c := t[i]
+			if c >= 'A' && c <= 'Z' {
+				c += 'a' - 'A'
+			}
+			if c != token[i] {
+				match = false
+				break
+			}
+		}
+		if match {
+			return true
+		}
+	}
+	return false
 }
 
 // stringInSlice returns true if needle exists in haystack
